@@ -301,14 +301,88 @@ fn main() {
         Err(e) => hits.push("recover-error", &format!("recover failed: {e}"), json!({"kind": "durable"})),
     }
 
+    // ---------------------------------------------------------------- hammer: continuous load, every read must be a value
+    // that was written under the key it was read from, whole (implementation only: no search needed,
+    // a foreign, mixed or torn value is a violation by itself)
+    let mut hammer = CaseWriter::new(&args.out, "hammer");
+    for (cls, millis) in [(0u8, args.budget(1200, 5000)), (3u8, args.budget(600, 4000)), (4u8, args.budget(200, 1000)), (1u8, args.budget(200, 1000))] {
+        let store = TensorStore::new();
+        let stop = Arc::new(std::sync::atomic::AtomicBool::new(false));
+        let kn = move |i: u64| format!("{}hammer:{}", PREFIX[cls as usize], i);
+        // value written under key i with sequence number q: tag = i * 1_000_000 + q, and for embedding keys the vector [tag; DIM]
+        let mk = move |i: u64, q: u64| { let tag = i * 1_000_000 + q; let mut t = TensorData::new(); t.set("v", TensorValue::Scalar(ScalarValue::Int(tag as i64))); if cls == 0 { t.set("_embedding", TensorValue::Vector(vec![tag as f32; DIM])); } t };
+        let mut writers = vec![];
+        for wi in 0..2u64 {
+            let (s, stop) = (store.clone(), stop.clone());
+            writers.push(std::thread::spawn(move || {
+                let mut q = wi * 400_000;
+                let mut n = 0u64;
+                while !stop.load(Ordering::Relaxed) {
+                    // put(a) delete(a) put(b) delete(b) ...: for the cache ring this re-uses the slot just freed
+                    for i in 0..2u64 {
+                        q += 1;
+                        let _ = s.put(kn(i), mk(i, q));
+                        n += 1;
+                        // (embedding keys: few deletes -- every delete + put leaves one more tombstoned entry with the
+                        //  same hash in the entity index, and lookups walk all of them)
+                        let del = if cls == 0 { q % 16 == 0 } else { wi == 0 || q % 3 == 0 };
+                        if del { let _ = s.delete(&kn(i)); n += 1; }
+                    }
+                }
+                n
+            }));
+        }
+        let mut readers = vec![];
+        for ri in 0..4u64 {
+            let (s, stop) = (store.clone(), stop.clone());
+            readers.push(std::thread::spawn(move || {
+                let (mut reads, mut found) = (0u64, 0u64);
+                let mut bad: Option<String> = None;
+                while !stop.load(Ordering::Relaxed) && bad.is_none() {
+                    let i = (reads + ri) % 2;
+                    reads += 1;
+                    if let Ok(t) = s.get(&kn(i)) {
+                        found += 1;
+                        let tag = match t.get("v") { Some(TensorValue::Scalar(ScalarValue::Int(x))) => Some(*x as u64), _ => None };
+                        match tag {
+                            None => bad = Some(format!("get({}) returned a value without the field every written value has (fields {:?}): nobody wrote it", kn(i), t.keys().collect::<Vec<_>>())),
+                            Some(tag) if tag / 1_000_000 != i => bad = Some(format!("get({}) returned tag {tag}, a value written under {}", kn(i), kn(tag / 1_000_000))),
+                            Some(tag) => if cls == 0 {
+                                match t.get("_embedding") {
+                                    Some(TensorValue::Vector(w)) => {
+                                        if w.iter().any(|x| x.to_bits() != w[0].to_bits()) { bad = Some(format!("get({}) returned a torn vector (tag {tag})", kn(i))); }
+                                        else if w[0] as u64 != tag { bad = Some(format!("get({}) returned the fields of write {tag} with the vector of write {}: a mixture of two writes", kn(i), w[0] as u64)); }
+                                    }
+                                    _ => bad = Some(format!("get({}) returned write {tag} without its vector", kn(i))),
+                                }
+                            },
+                        }
+                    }
+                }
+                (reads, found, bad)
+            }));
+        }
+        std::thread::sleep(Duration::from_millis(millis as u64));
+        stop.store(true, Ordering::Relaxed);
+        let writes: u64 = writers.into_iter().map(|h| h.join().unwrap()).sum();
+        let mut reads = 0; let mut found = 0; let mut bad: Option<String> = None;
+        for h in readers { let (r, f, bq) = h.join().unwrap(); reads += r; found += f; if bad.is_none() { bad = bq; } }
+        dist.add(&format!("hammer.{}.reads", PREFIX[cls as usize].trim_end_matches(':')), reads);
+        dist.add(&format!("hammer.{}.writes", PREFIX[cls as usize].trim_end_matches(':')), writes);
+        hammer.push(&format!("{cls}"), &format!("hammer class={} writes={writes} reads={reads} found={found} bad={bad:?}", PREFIX[cls as usize]), found > 0);
+        if let Some(bq) = bad {
+            hits.push("foreign-or-mixed-read", &format!("2 writers (put/delete on 2 keys) and 4 readers, after {reads} reads / {writes} writes: {bq}"), json!({"kind": "hammer", "class": PREFIX[cls as usize], "seed": args.seed}));
+        }
+    }
+
     write_meta(
         &args.out,
         json!({
             "property": "C11", "seed": args.seed, "tier": args.tier,
-            "kinds": [order.summary(), lin.summary(), durable.summary()],
+            "kinds": [order.summary(), lin.summary(), durable.summary(), hammer.summary()],
             "distribution": dist.json(),
             "hits": hits.0,
-            "nontrivial_rule": "lin: at least two operations overlap in time (or the history is not linearizable); order: always; durable: at least one key compared",
+            "nontrivial_rule": "lin: at least two operations overlap in time (or the history is not linearizable); order: always; durable: at least one key compared; hammer: at least one read found a value",
         }),
     );
 }
